@@ -312,6 +312,83 @@ def c14(tier):
     return out
 
 
+def _valid_qsbr(p):
+    reg = not p.startswith("U")
+    for i, c in enumerate(p):
+        if c == "X":
+            return i + 1 == len(p)
+        if c == "U":
+            if reg:
+                return False
+            reg = True
+        elif c == "P":
+            if not reg:
+                return False
+            reg = False
+        elif c in "QRA":
+            if not reg:
+                return False
+        elif c != "W":
+            return False
+    return True
+
+
+def qsbr_programs(maxlen, alphabet="QRPUX"):
+    out = [""]
+    for n in range(1, maxlen + 1):
+        for t in itertools.product(alphabet, repeat=n):
+            p = "".join(t)
+            if _valid_qsbr(p):
+                out.append(p)
+    return out
+
+
+def qsbr(prop, tier):
+    """C05 and C06 share the executions (both oracles are always on); the two
+    checks split the program families between them so that each family is run
+    once per tier: C05 = the 4-thread role family + all 2-thread sets, C06 = all
+    3-thread sets + the exit/pause-during-epoch-change family"""
+    out = []
+    roles = dict(
+        holder=["QWQ"],
+        retirer=["RX", "RPUQ", "RQX"],
+        leaver=["X", "PU", "QX"],
+        joiner=["UQX", "URQ"])
+    if prop == "C05":
+        for r in roles["retirer"]:
+            for l in roles["leaver"]:
+                for j in roles["joiner"]:
+                    out.append(dict(id="qsbr-role-QWQ-%s-%s-%s" % (r, l, j), runner="qsbr",
+                                    threads=["QWQ", r, l, j], bound=3 if tier == "quick" else 4, delay_bounded=True,
+                                    shards=1 if tier == "quick" else 8))
+        # two retirers, a holder and a joiner; a holder that allocates
+        for extra in (["QWQ", "RX", "RQX", "UQX"], ["QWQ", "RPUQ", "RX", "URQ"], ["AQWQ", "RX", "X", "UQX"],
+                      ["QWQ", "ARX", "QX", "UQX"]):
+            out.append(dict(id="qsbr-role-" + "-".join(extra), runner="qsbr", threads=extra,
+                            bound=3 if tier == "quick" else 4, delay_bounded=True, shards=1 if tier == "quick" else 8))
+        progs = qsbr_programs(2 if tier == "quick" else 3)
+        for a, b in itertools.combinations_with_replacement(progs, 2):
+            if "R" not in a + b:
+                continue
+            out.append(dict(id="qsbr-2t-%s-%s" % (a or "_", b or "_"), runner="qsbr", threads=[a, b],
+                            bound=3 if tier == "quick" else 4))
+    else:
+        progs = qsbr_programs(2)
+        sets = [c for c in itertools.combinations_with_replacement(progs, 3) if "R" in "".join(c)]
+        if tier == "quick":
+            sets = [c for c in sets if hash_det("".join(c)) % 8 == 0]
+        for a, b, c in sets:
+            out.append(dict(id="qsbr-3t-%s-%s-%s" % (a or "_", b or "_", c or "_"), runner="qsbr", threads=[a, b, c],
+                            bound=2 if tier == "quick" else 3))
+        # threads leaving with pending requests while another changes the epoch
+        for a in ("RX", "RP", "RQX", "RRX", "RQP"):
+            for b in ("QQ", "QX", "X", "PU", "QQQ"):
+                for c in ("UQ", "UX", "Q", "UQQ"):
+                    out.append(dict(id="qsbr-leave-%s-%s-%s" % (a, b, c), runner="qsbr", threads=[a, b, c],
+                                    bound=3 if tier == "quick" else 4, delay_bounded=True))
+    return out
+
+
 TABLES = {"C03": c03, "C04": c04, "C09": c09, "C14": c14}
 
 if __name__ == "__main__":
